@@ -3,6 +3,7 @@
   that the two modules use, and the ghost event log.
 -/
 import SettlusModel.Nft
+import SettlusModel.Generated.Facts
 namespace Settlus
 
 /-! ### accounts and validators as the line protocol names them -/
@@ -57,11 +58,20 @@ inductive Holder
   | collector             -- fee collector
 deriving DecidableEq, Repr
 
-/-- the bank holder of a 20-byte address: `a<i>` for the pattern addresses, else the address itself -/
+/-- the module account behind a hex address, if it is one of the three a history can name -/
+def moduleOfHex (h : Str) : Option Holder :=
+  match Facts.moduleAddrs.find? (fun p => p.2 == h) with
+  | some p => if p.1 == "mdistr" then some .distr else if p.1 == "mpool" then some .pool else if p.1 == "mcollector" then some .collector else none
+  | none => none
+
+/-- the bank holder of a 20-byte address: a module account, `a<i>` for the pattern addresses, else the address itself -/
 def holderOfHex (h : Str) : Holder :=
-  match (List.range 10).find? (fun i => accHex (.a i) == h) with
-  | some i => .acct (.a i)
-  | none => .addr h
+  match moduleOfHex h with
+  | some m => m
+  | none =>
+    match (List.range 10).find? (fun i => accHex (.a i) == h) with
+    | some i => .acct (.a i)
+    | none => .addr h
 
 def treasuryName (t : Nat) : Holder := .treasury t
 
